@@ -341,6 +341,33 @@ def tlc_trace(ctx, module, trace_file, cfg=None, env=None, timeout=1800, xmx="4g
     return res
 
 
+_RE_MARK = re.compile(r'<<\s*"(VIOL|ACCEPTED|STUCK|DRIFT|EXTRA)"')
+_RE_VHEAD = re.compile(r'<<\s*"VIOL",\s*"([^"]+)",\s*(\d+)\s*,?')
+
+
+def parse_viols(output):
+    """All <<"VIOL", signature, index, detail>> tuples printed by a trace spec, robust against TLC wrapping long
+    tuples over several lines and against Progress(...) lines interleaved with PrintT output.
+    Returns [(signature, index, detail-text)]."""
+    lines = [l for l in output.splitlines() if not l.startswith("Progress(") and not l.startswith("Checkpointing")]
+    txt = " ".join(lines)
+    marks = [(m.start(), m.group(1)) for m in _RE_MARK.finditer(txt)]
+    out = []
+    for i, (pos, kind) in enumerate(marks):
+        if kind != "VIOL":
+            continue
+        end = marks[i + 1][0] if i + 1 < len(marks) else len(txt)
+        seg = txt[pos:end]
+        h = _RE_VHEAD.match(seg)
+        if not h:
+            raise ToolError("unparsable VIOL tuple in TLC output: %s" % seg[:200])
+        detail = " ".join(seg[h.end():].split())
+        # cut the trailing ">>" of the tuple and anything TLC printed after it
+        k = detail.rfind(">>")
+        out.append((h.group(1), int(h.group(2)), (detail[:k] if k >= 0 else detail)[:800]))
+    return out
+
+
 def parse_tla_tuple(line):
     """Parse a TLC-printed tuple of strings/ints like <<"VIOL", "sig", 12, "detail">> into a list."""
     body = line.strip()
